@@ -91,15 +91,12 @@ def _kw(variant):
 
 
 def _keyform(key):
+    """Coarse key class for group names (the exact spelling is in the case)."""
     if key is None:
         return 'None'
-    if isinstance(key, list):
-        return 'list'
-    if isinstance(key, tuple):
-        return 'compound' if len(key) > 1 else 'one-element tuple'
-    if isinstance(key, int):
-        return 'index'
-    return 'field'
+    if isinstance(key, (list, tuple)) and len(key) > 1:
+        return 'compound'
+    return 'single field'
 
 
 def _run(fn):
@@ -236,7 +233,7 @@ def check_table(acc, famname, fam, rows):
                 if op == 'conflicts' and cname != 'plain':
                     label += '(%s)' % ', '.join(sorted(_cargs(cname)))
                 where = 'header-only table' if n == 0 else \
-                    'key=%s%s' % (kform, '' if variant == 'default' else ', ' + variant)
+                    'key=%s%s' % (kform, '' if variant in ('default', 'presorted') else ', buffersize given')
                 group = '%s | %s | %s' % (label, sig, where)
                 case = {'kind': 'dedup', 'op': op, 'header': hdr, 'rows': use, 'key': key, 'variant': variant,
                         'cargs': cname}
